@@ -48,7 +48,7 @@ class Check(PropCheck):
                 r = rng.random(); big = rng.randint(0, 10 ** 6)
                 if rng.random() < 0.12:
                     # an operation that must be refused (removed or unknown id) and must leave nothing behind
-                    sel = rng.choice(['removed', 'removed', 'any'])
+                    sel = 'removed'          # no removed slot yet: the selector yields an id far out of range
                     ops += ['pick %s %d' % (sel, big), rng.choice(['add_child $0 %s %s -' % (vf.enc_str('ghost%d_%d' % (j, s)), vf.enc_len(0.5)), 'prune $0',
                                                                   'merge $0 $0 - - - -'])]
                 if r < 0.3:
